@@ -103,6 +103,10 @@ func ExtractMPIs(d []byte) ([]byte, []*big.Int, bool) {
 	if !ok {
 		return nil, nil, false
 	}
+	if uint64(mpiCount) > uint64(len(current))/4 {
+		// every MPI takes at least its four byte length
+		return nil, nil, false
+	}
 	result := make([]*big.Int, int(mpiCount))
 	for i := 0; i < int(mpiCount); i++ {
 		current, result[i], ok = ExtractMPI(current)
